@@ -209,7 +209,7 @@ theorem ev_connectionFailed (s : Sess) : Evo s s.connectionFailed := by
   split
   · exact (((ev_setRetry s _).trans (ev_closeConn _)).trans (ev_setSt _ _)).trans (ev_connectionClosed _ _)
   · exact (ev_setRetry s _).trans (ev_setSt _ _)
-  · exact (((ev_closeConn s).trans (ev_setRetry _ _)).trans (ev_setSt _ _)).trans (ev_connectionClosed _ _)
+  · exact ((((ev_closeConn s).trans (ev_setRetry _ _)).trans (ev_setHold _ _)).trans (ev_setSt _ _)).trans (ev_connectionClosed _ _)
   · exact ev_errorClose _
   · exact ev_errorClose _
   · exact Evo.refl _
@@ -359,8 +359,8 @@ theorem ev_fsmNotificationReceived (s : Sess) (e sub : Nat) : Evo s (s.fsmNotifi
   unfold fsmNotificationReceived
   split
   · split
-    · exact ((ev_setRetry s _).trans (ev_closeConn _)).trans (ev_setSt _ _)
-    · exact ((ev_setRetry s _).trans (ev_closeConn _)).trans (ev_setSt _ _)
+    · exact ((((ev_setRetry s _).trans (ev_setHold _ _)).trans (ev_setKeepalive _ _)).trans (ev_closeConn _)).trans (ev_setSt _ _)
+    · exact ((((ev_setRetry s _).trans (ev_setHold _ _)).trans (ev_setKeepalive _ _)).trans (ev_closeConn _)).trans (ev_setSt _ _)
     · exact ev_errorClose _
     · exact ev_errorClose _
     · exact ev_errorClose _
